@@ -210,6 +210,31 @@ fn mini_live_cfg(version: u16, depth: usize, oracles: Oracles) -> EnumCfg {
     EnumCfg { version, seed: "s4x64".into(), ops, depth, oracles, extra_paths: vec![], one_reopen: false, extend_refused: false }
 }
 
+/// Names at the 31-unit limit in four encodings: ASCII (1 UTF-8 byte per unit), two-byte, three-byte
+/// (CJK: 31 units = 93 bytes; 21 units = 63 bytes) and a surrogate pair at the end; one 32-unit name.
+fn long_name_ops() -> Vec<Op> {
+    let n31 = format!("/{}", "n".repeat(31));
+    let e31 = format!("/{}", "\u{e9}".repeat(31));
+    let s31 = format!("/{}{}", "x".repeat(29), "\u{1f600}");
+    let n30 = format!("/{}", "m".repeat(30));
+    let c31 = format!("/{}", "\u{8cc7}".repeat(31));
+    let c21 = format!("/{}", "\u{4e2d}".repeat(21));
+    vec![
+        Op::Rewrite(n31.clone(), 70),
+        Op::CreateStorage(e31.clone()),
+        Op::CreateStream(s31.clone()),
+        Op::Rewrite(n30, 5000),
+        Op::CreateStorage(c31.clone()),
+        Op::Rewrite(c21.clone(), 10),
+        Op::RemoveStream(n31),
+        Op::RemoveStorage(e31),
+        Op::RemoveStream(s31),
+        Op::RemoveStorage(c31),
+        Op::RemoveStream(c21),
+        Op::CreateStream(format!("/{}", "y".repeat(32))),
+    ]
+}
+
 fn c01(tier: &str, thorough: bool) -> i32 {
     // "reopen": a reached state that cannot be opened again (the property covers files "created fresh or reopened")
     let ctx = Ctx::new("C01", tier, level_mc(), "e1", &["model", "reopen"]);
@@ -238,6 +263,7 @@ fn c01(tier: &str, thorough: bool) -> i32 {
             &EnumCfg { version: v, seed: "s2x100+d1+b5000".into(), ops: data_ops(&a), depth: 2, oracles: o, extra_paths: vec!["/s".into(), "/t".into()], one_reopen: false, extend_refused: false },
         );
         add_enum(&ctx, &mut tot, "four one-mini-sector streams, live", &mini_live_cfg(v, if thorough { 5 } else { 4 }, o));
+        add_enum(&ctx, &mut tot, "31-unit names", &EnumCfg { version: v, seed: "fresh".into(), ops: long_name_ops(), depth: 3, oracles: o, extra_paths: vec![], one_reopen: false, extend_refused: false });
     }
     ctx.finish(tot.0, tot.1)
 }
@@ -270,12 +296,7 @@ fn c02(tier: &str, thorough: bool) -> i32 {
     }
     // names at the 31-unit limit (the 64-byte name field is exactly full)
     for v in [3u16, 4] {
-        let n31 = format!("/{}", "n".repeat(31));
-        let e31 = format!("/{}", "\u{e9}".repeat(31));
-        let s31 = format!("/{}{}", "x".repeat(29), "\u{1f600}");
-        let n30 = format!("/{}", "m".repeat(30));
-        let ops = vec![Op::Rewrite(n31.clone(), 70), Op::CreateStorage(e31.clone()), Op::CreateStream(s31.clone()), Op::Rewrite(n30.clone(), 5000), Op::RemoveStream(n31), Op::RemoveStorage(e31), Op::RemoveStream(s31), Op::CreateStream(format!("/{}", "y".repeat(32)))];
-        add_enum(&ctx, &mut tot, "31-unit names", &EnumCfg { version: v, seed: "fresh".into(), ops, depth: 3, oracles: o, extra_paths: vec![], one_reopen: false, extend_refused: false });
+        add_enum(&ctx, &mut tot, "31-unit names", &EnumCfg { version: v, seed: "fresh".into(), ops: long_name_ops(), depth: 3, oracles: o, extra_paths: vec![], one_reopen: false, extend_refused: false });
         // ASCII next to non-ASCII siblings whose UTF-8 length order differs from their UTF-16 length order
         let mixed = ["/abc", "/\u{e9}\u{e9}", "/\u{4e2d}", "/ab", "/g/abc", "/g/\u{e9}\u{e9}"];
         let mut ops: Vec<Op> = vec![Op::CreateStorage("/g".into())];
@@ -285,9 +306,16 @@ fn c02(tier: &str, thorough: bool) -> i32 {
         }
         add_enum(&ctx, &mut tot, "mixed ASCII / non-ASCII names", &EnumCfg { version: v, seed: "fresh".into(), ops, depth: 3, oracles: o, extra_paths: vec![], one_reopen: false, extend_refused: false });
     }
+    // metadata of the root and of a storage, interleaved with operations that rewrite the root entry
+    for v in [3u16, 4] {
+        use crate::ops::TimeSpec;
+        let t = TimeSpec { neg: false, secs: 1_700_000_000, nanos: 0 };
+        let ops = vec![Op::SetCreated("/".into(), t), Op::SetModified("/".into(), t), Op::SetClsid("/".into(), [7; 16]), Op::SetStateBits("/".into(), 5), Op::CreateStorage("/d".into()), Op::SetCreated("/d".into(), t), Op::SetStateBits("/d".into(), 9), Op::Rewrite("/s".into(), 70), Op::RemoveStream("/s".into()), Op::Touch("/d".into())];
+        add_enum(&ctx, &mut tot, "metadata", &EnumCfg { version: v, seed: "fresh".into(), ops, depth: 3, oracles: o, extra_paths: vec![], one_reopen: false, extend_refused: false });
+    }
     // growth seeds: the histories that add directory / FAT / MiniFAT sectors
     for (v, seed) in growth_seeds(thorough) {
-        let big = seed.starts_with("b7");
+        let big = seed.starts_with("b7") || seed.starts_with("b15");
         let a = DataAlpha { paths: vec!["/n1", "/n2"], rewrite: if big { vec![64, 100_000] } else { vec![0, 64, 4096] }, setlen: vec![], append: vec![], patch: vec![], remove: !big };
         add_enum(&ctx, &mut tot, "growth seed", &EnumCfg { version: v, seed, ops: data_ops(&a), depth: if big { 1 } else { 2 }, oracles: o, extra_paths: vec![], one_reopen: !big, extend_refused: false });
     }
@@ -321,6 +349,8 @@ pub fn growth_seeds(thorough: bool) -> Vec<(u16, String)> {
         // just below / across the 110th FAT sector = first DIFAT sector (V3)
         (3, "b7100000".into()),
         (3, "b7200000".into()),
+        // just below the 237th FAT sector (V3): the 128th cell of the first DIFAT sector is its chain pointer
+        (3, "b15300000".into()),
     ];
     if thorough {
         v.push((4, "s16x4080".into())); // 1024 MiniFAT cells
@@ -359,7 +389,7 @@ fn c03(tier: &str, thorough: bool) -> i32 {
         add_enum(&ctx, &mut tot, "data deep", &EnumCfg { version: v, seed: "fresh".into(), ops: data_ops(&small), depth: if thorough { 5 } else { 4 }, oracles: o, extra_paths: vec![], one_reopen: false, extend_refused: false });
     }
     for (v, seed) in growth_seeds(thorough) {
-        let big = seed.starts_with("b7");
+        let big = seed.starts_with("b7") || seed.starts_with("b15");
         let a = DataAlpha { paths: vec!["/n1", "/n2"], rewrite: if big { vec![64, 100_000] } else { vec![0, 1, 64, 65, 4096] }, setlen: if big { vec![] } else { vec![0, 100, 5000] }, append: if big { vec![] } else { vec![64] }, patch: vec![], remove: !big };
         let mut ops = data_ops(&a);
         if !big {
@@ -413,6 +443,11 @@ fn c10(tier: &str, thorough: bool) -> i32 {
             cfg.ops.push(Op::CreateStorageAll(bad.into()));
         }
         cfg.ops.push(Op::CreateStorageAll("/n/w:x".into()));
+        // the root under other spellings (whatever the verdict, a refusal must leave the bytes alone)
+        for alias in ["", ".", "/a/..", "/B/x/../.."] {
+            cfg.ops.push(Op::RemoveStorageAll(alias.into()));
+            cfg.ops.push(Op::RemoveStorage(alias.into()));
+        }
         cfg.ops.push(Op::SetClsid("/a".into(), [7; 16]));
         cfg.ops.push(Op::SetStateBits("/zz".into(), 5));
         add_bfs(&ctx, &mut tot, "tree+invalid", &cfg);
@@ -665,6 +700,7 @@ fn c14(tier: &str, thorough: bool) -> i32 {
             } else {
                 wseqs.push(vec![WOp::Shrink, WOp::Grow]);
                 wseqs.push(vec![WOp::Overflow, WOp::WriteSmall]);
+                wseqs.push(vec![WOp::FailingSetLen, WOp::WriteSmall]);
             }
             // reader assignments: one reader with one op; one reader with two ops; two readers
             let mut rsets: Vec<Vec<Vec<ROp>>> = ALL_ROPS.iter().map(|r| vec![vec![*r]]).collect();
@@ -821,7 +857,7 @@ fn c17(tier: &str, thorough: bool) -> i32 {
     let ctx = leak(Ctx::new("C17", tier, level_mc(), "e1m", &["model", "reopen", "refusal"]));
     common_assumptions(ctx);
     ctx.assume("expected FILETIME values are computed independently in i128 (100 ns units since 1601, truncated toward the Unix epoch, clamped to [0, 2^64-1])");
-    ctx.set_rule("every setter x every value of the alphabets (CLSID: nil, all-ones, a mixed pattern, 16 single-byte patterns; state bits: 0, 1, 2^31, all-ones, 0x01020304, 32 single bits; instants around the Unix epoch, 1601, the upper saturation point, far future, pre-1601, each with sub-100ns offsets on both sides) x object kind (root, storage, stream) x directory position (1st, 2nd, 3rd directory sector) x version; read back through entry, listings, after reopen in both modes and by the independent parser; plus all ordered pairs of setter kinds on one object, setters on missing paths and CLSID on streams");
+    ctx.set_rule("every setter x every value of the alphabets (CLSID: nil, all-ones, a mixed pattern, 16 single-byte patterns; state bits: 0, 1, 2^31, all-ones, 0x01020304, 32 single bits; instants around the Unix epoch, 1601, the upper saturation point, far future, pre-1601, each with sub-100ns offsets on both sides) x object kind (root, storage, stream) x directory position (1st, 2nd, 3rd directory sector) x version; read back through entry, listings, after reopen in both modes and by the independent parser; plus all ordered pairs of setter kinds on one object, setters on missing paths and CLSID on streams; plus all four fields set on the root and on a storage followed by every sequence (depth 3, thorough 4) of content operations (small / large rewrite, set_len 0 / 4096, removal, nested stream, storage create / remove): the values must still be there after every step, live and reopened");
     let mut clsids: Vec<[u8; 16]> = vec![[0; 16], [0xFF; 16], [0x00, 0x11, 0x22, 0x33, 0x44, 0x55, 0x66, 0x77, 0x88, 0x99, 0xaa, 0xbb, 0xcc, 0xdd, 0xee, 0xff]];
     for i in 0..16 {
         let mut c = [0u8; 16];
@@ -904,6 +940,33 @@ fn c17(tier: &str, thorough: bool) -> i32 {
             for op in [Op::SetClsid("/nope".into(), clsids[1]), Op::SetStateBits("/nope".into(), 1), Op::SetCreated("/nope/x".into(), times[0]), Op::SetModified("/nope".into(), times[0]), Op::Touch("/nope".into())] {
                 hists.push(History { version: v, seed: seed.clone(), ops: vec![op], reopen_after: vec![false] });
             }
+        }
+    }
+    // metadata set on the root / a storage must survive every later content operation (the mini
+    // stream appearing, emptying, migrating; directory slots being freed and reused)
+    for v in [3u16, 4] {
+        let set_all = |t: &str| vec![Op::SetClsid(t.into(), clsids[2]), Op::SetStateBits(t.into(), 0x0102_0304), Op::SetCreated(t.into(), times[3]), Op::SetModified(t.into(), times[5])];
+        let content: Vec<Op> = vec![Op::Rewrite("/s".into(), 100), Op::Rewrite("/s".into(), 5000), Op::SetLen("/s".into(), 0), Op::SetLen("/s".into(), 4096), Op::RemoveStream("/s".into()), Op::Rewrite("/D/t".into(), 64), Op::RemoveStream("/D/t".into()), Op::CreateStorage("/e".into()), Op::RemoveStorage("/e".into())];
+        let depth = if thorough { 4 } else { 3 };
+        let mut level: Vec<Vec<Op>> = vec![vec![]];
+        for _ in 0..depth {
+            let mut next = Vec::new();
+            for q in &level {
+                for c in &content {
+                    let mut t = q.clone();
+                    t.push(c.clone());
+                    next.push(t);
+                }
+            }
+            for q in &next {
+                let mut o = vec![Op::CreateStorage("/D".into())];
+                o.extend(set_all("/"));
+                o.extend(set_all("/D"));
+                o.extend(q.iter().cloned());
+                let n = o.len();
+                hists.push(History { version: v, seed: "fresh".into(), ops: o, reopen_after: vec![false; n] });
+            }
+            level = next;
         }
     }
     ctx.sample(json!({"metadata_history": hists[hists.len() / 3]}));
@@ -1085,7 +1148,7 @@ fn c18(tier: &str, thorough: bool) -> i32 {
         hists.extend(c18_histories(v, if thorough { 3 } else { 2 }, &sizes));
     }
     for (v, seed) in growth_seeds(false) {
-        if seed.starts_with("b7") {
+        if seed.starts_with("b7") || seed.starts_with("b15") {
             continue; // multi-megabyte files: the per-index sweeps would take hours
         }
         hists.push(History { version: v, seed, ops: vec![Op::Rewrite("/n1".into(), 65), Op::Rewrite("/n2".into(), 4096), Op::RemoveStream("/n1".into())], reopen_after: vec![false; 3] });
